@@ -1,6 +1,6 @@
 (* Pf_Hist.v — an invariant of fault-free, API-call-atomic histories of any number of threads, and from it the
    whole-history theorems of C03 and C17: the monitors hold of the model for EVERY such history. *)
-From HL Require Import Base Model Shape Algo Api OpsLemmas Lemmas ShapeLemmas ApiLemmas QuietLemmas Pf_Calls Check Monitors Pf_C06 Pf_C13.
+From HL Require Import Base Model Shape Algo Api OpsLemmas Lemmas ShapeLemmas ApiLemmas QuietLemmas Pf_Calls Check Monitors Pf_C06 Pf_C13 Pf_Acct.
 
 (* ---------------------------------------------------------------- who holds what, per raw state *)
 Definition wf_rawst (s : rawst) : Prop := writer s <> None -> readers s = [].
@@ -290,6 +290,38 @@ Definition guard_ok (t : tid) (lc : tlocal) (w : world) : Prop :=
 Definition coll_ok (sc : scen) (o : apiop) : Prop :=
   forall c m f, o = AAcquire c m f -> forall s, coll (sc_env sc) c = Some s -> acquirable s = true /\ NoDup (leaves s).
 
+(* events of the acquisition / release algorithms and of the key: never a closure-entry marker *)
+Definition nomark_ev (e : ev) : Prop := match e with EMark _ _ => False | _ => True end.
+Definition nomarkop (o : op) : Prop := match o with OMark _ => False | _ => True end.
+
+Lemma run_nomark pw t p w out w' :
+  ops_in nomarkop p -> run pw t p w = (out, w') -> exists evs, w_trace w' = evs ++ w_trace w /\ Forall nomark_ev evs.
+Proof.
+  intros Ho R.
+  destruct (run_ops_inv pw t nomarkop (fun _ => True) nomark_ev) with (p := p) (w := w) (out := out) (w' := w') as [_ H]; auto.
+  intros o w1 Ao _. destruct o; simpl in Ao |- *; try contradiction;
+    try (split; [exact I|exists []; split; [reflexivity|constructor]]);
+    try (split; [exact I|eexists [_]; split; [reflexivity|repeat constructor]]).
+  destruct (faulty w1 k l); [split; [exact I|eexists [_]; split; [reflexivity|repeat constructor]]|].
+  destruct (raw_apply t k (w_raw w1 l) (pw l)); (split; [exact I|eexists [_]; split; [reflexivity|repeat constructor]]).
+Qed.
+
+Lemma alg_nomark p : ops_in alg_op p -> ops_in nomarkop p.
+Proof. apply ops_in_weaken. intros o. destruct o; simpl; tauto. Qed.
+
+(* what a scoped call that ran its closure looks like: the acquisition [w -> w1] (accounted, marker free, ending with every
+   leaf taken on top of the table as it was), the closure-entry marker, user events [-> w2], then neither an acquisition
+   nor a marker *)
+Definition scoped_shape (sc : scen) (t : tid) (c : nat) (m : mode) (w w' : world) : Prop :=
+  exists w1 w2 evA evR,
+    w_trace w1 = evA ++ w_trace w /\ Forall nomark_ev evA /\ Forall (by_thread t) evA /\ Forall rel_res_ok evA /\
+    (forall l, hc t (w_raw w1 l) + releases_of l evA = hc t (w_raw w l) + acquires_of l evA) /\
+    (forall x, w_raw w1 x = acq_all t m (kleaves (shape_of sc c)) (w_raw w) x) /\
+    frame (emit w1 (EMark t 1)) w2 /\ w_trace w' = evR ++ w_trace w2 /\ Forall tail_ev evR.
+
+Definition is_scoped (o : apiop) : option (nat * mode) :=
+  match o with AAcquire c m (FScoped _ _ | FScopedTry _ _) => Some (c, m) | _ => None end.
+
 Record call_out (sc : scen) (t : tid) (lc : tlocal) (o : apiop) (w : world) (out : outcome) (w' : world) : Prop := {
   cq_stop : stop_code (snd (api_fin (sc_env sc) lc o out)) = true -> is_acquire o = true;
   cq_quiet : stop_code (snd (api_fin (sc_env sc) lc o out)) = false -> quiet w';
@@ -298,7 +330,12 @@ Record call_out (sc : scen) (t : tid) (lc : tlocal) (o : apiop) (w : world) (out
   cq_can : forall c m f, o = AAcquire c m f -> got_guard o (snd (api_fin (sc_env sc) lc o out)) = true ->
            can_all m (kleaves (shape_of sc c)) (w_raw w) = true;
   cq_clean : stop_code (snd (api_fin (sc_env sc) lc o out)) = false ->
-             exists evs, w_trace w' = evs ++ w_trace w /\ Forall clean_ev evs
+             exists evs, w_trace w' = evs ++ w_trace w /\ Forall clean_ev evs;
+  cq_scoped : forall c m, is_scoped o = Some (c, m) ->
+              match snd (api_fin (sc_env sc) lc o out) with
+              | ROk | RPanicked => scoped_shape sc t c m w w'
+              | _ => exists evs, w_trace w' = evs ++ w_trace w /\ Forall nomark_ev evs
+              end
 }.
 
 
@@ -361,13 +398,15 @@ Section CallAcq.
         rewrite (shape_of_coll _ _ _ Hc). destruct (Nat.eqb n 2); reflexivity.
       + intros c' m' f' Heq _. inversion Heq; subst. rewrite (shape_of_coll _ _ _ Hc). exact Can.
       + intros _. apply (eff_tr _ _ _ (eff_trans _ _ _ _ _ E1 E2)).
+      + intros c' m' X; discriminate X.
     - destruct L as [w1 R1].
       assert (Rc : run nopw t (with_key true false (raw_lock (e_fuel e) m a ;; see_all (gpoisons (gitems s)) ;; poison_result s)) w
                    = (OBlocked, w1)).
       { unfold with_key, pthen. cbn [run]. fold a in R1. rewrite R1. reflexivity. }
       rewrite Rc in R. inversion R; subst out w'. clear R.
       constructor; cbn [api_fin snd stop_code]; try (intros H; discriminate H); try reflexivity.
-      intros c' m' f' _ H. discriminate H.
+      + intros c' m' f' _ H. discriminate H.
+      + intros c' m' X; discriminate X.
   Qed.
 End CallAcq.
 
@@ -408,6 +447,7 @@ Section CallAcq2.
         rewrite (shape_of_coll _ _ _ Hc). destruct (Nat.eqb n 2); reflexivity.
       + intros c' m' f' Heq _. inversion Heq; subst. rewrite (shape_of_coll _ _ _ Hc). exact Can.
       + intros _. apply (eff_tr _ _ _ (eff_trans _ _ _ _ _ E1 E2)).
+      + intros c' m' X; discriminate X.
     - assert (Rc : run nopw t (with_key true false
                   (Bind (raw_try m a)
                         (fun v => if vtrue v then see_all (gpoisons (gitems s)) ;; poison_result s else Ret (VNat 1)))) w
@@ -421,6 +461,7 @@ Section CallAcq2.
       + intros _ x. rewrite (eff_raw _ _ _ E1). reflexivity.
       + intros c' m' f' _ H. discriminate H.
       + intros _. apply (eff_tr _ _ _ E1).
+      + intros c' m' X; discriminate X.
   Qed.
 
   Lemma call_acq_scoped lent body out w' :
@@ -428,7 +469,8 @@ Section CallAcq2.
     call_out sc t lc (AAcquire c m (FScoped lent body)) w out w'.
   Proof.
     intros R. destruct (can_all m (kleaves s) (w_raw w)) eqn:Can.
-    - destruct (scoped_call_quiet t m (e_am e) s Ha ND (e_fuel e) lent body w Q Hf Can) as [w2 [R2 [E2 _]]].
+    - destruct (scoped_call_quiet t m (e_am e) s Ha ND (e_fuel e) lent body w Q Hf Can)
+        as [w2 [R2 [E2 [_ [_ [wa [wb [evR [Ra [Ea [Fb [Tb Ftl]]]]]]]]]]]].
       fold a in R2. rewrite R2 in R. inversion R; subst out w'. clear R.
       assert (Fin : stop_code (snd (api_fin e lc (AAcquire c m (FScoped lent body))
                                    (if existsb is_cpanic body then OPanic else ODone (VNat 0)))) = false).
@@ -439,11 +481,23 @@ Section CallAcq2.
       + intros _ x. rewrite (ep_raw _ _ _ _ E2). reflexivity.
       + intros c' m' f' _ H. destruct (existsb is_cpanic body); discriminate H.
       + intros _. apply (ep_tr _ _ _ _ E2).
+      + intros c' m' X. cbn [is_scoped] in X. inversion X; subst c' m'.
+        assert (Sh : scoped_shape sc t c m w w2).
+        { destruct (run_acct nopw t _ _ _ _ Ra) as [evA [TA [FA HA]]].
+          destruct (run_nomark nopw t _ _ _ _ (alg_nomark _ (raw_lock_ops (e_fuel e) m (alg_of (e_am e) s))) Ra) as [evA' [TA' FA']].
+          assert (evA' = evA) by (rewrite TA in TA'; now apply app_inv_tail in TA'). subst evA'.
+          destruct (run_rel_res nopw t _ _ _ _ Ra) as [evA'' [TA'' FA'']].
+          assert (evA'' = evA) by (rewrite TA in TA''; now apply app_inv_tail in TA''). subst evA''.
+          exists wa, wb, evA, evR. split; [exact TA|]. split; [exact FA'|]. split; [exact FA|]. split; [exact FA''|]. split; [exact HA|].
+          split; [intros x; rewrite (eff_raw _ _ _ Ea); now rewrite (shape_of_coll _ _ _ Hc)|].
+          split; [exact Fb|]. split; [exact Tb|exact Ftl]. }
+        destruct (existsb is_cpanic body); exact Sh.
     - pose proof (raw_lock_all_or_wait t m (e_am e) s Ha ND (e_fuel e) w Q Hf) as L. rewrite Can in L.
       destruct L as [w1 R1]. fold a in R1.
       rewrite (run_scoped_rest_blocked _ _ _ _ _ _ _ _ _ R1) in R. inversion R; subst out w'. clear R.
       constructor; cbn [api_fin snd stop_code]; try (intros H; discriminate H); try reflexivity.
-      intros c' m' f' _ H. discriminate H.
+      + intros c' m' f' _ H. discriminate H.
+      + intros c' m' _. apply (run_nomark nopw t _ _ _ _ (alg_nomark _ (raw_lock_ops (e_fuel e) m a)) R1).
   Qed.
 
   Lemma call_acq_scoped_try lent body out w' :
@@ -459,7 +513,7 @@ Section CallAcq2.
     - assert (Ep : effp w1 w1 (acq_all t m (kleaves s) (w_raw w)) (w_psn w1)).
       { constructor; auto. - apply (eff_raw _ _ _ E1). - exists []. split; [reflexivity|constructor]. }
       destruct (run_scoped_rest_quiet t m (e_am e) s lent body Ha ND skip w1 VUnit w1 (w_raw w) Q1 eq_refl Ep
-                  (fun x => eq_refl) Can) as [w2 [R2 [E2 _]]].
+                  (fun x => eq_refl) Can) as [w2 [R2 [E2 [_ [_ [wb [evR [Fb [Tb Ftl]]]]]]]]].
       fold a in R2. rewrite R2 in R. inversion R; subst out w'. clear R.
       assert (Fin : stop_code (snd (api_fin e lc (AAcquire c m (FScopedTry lent body))
                                    (if existsb is_cpanic body then OPanic else ODone (VNat 0)))) = false).
@@ -470,6 +524,17 @@ Section CallAcq2.
       + intros _ x. rewrite (ep_raw _ _ _ _ E2). reflexivity.
       + intros c' m' f' _ H. destruct (existsb is_cpanic body); discriminate H.
       + intros _. apply (clean_trans w w1 w2); [apply (eff_tr _ _ _ E1)|apply (ep_tr _ _ _ _ E2)].
+      + intros c' m' X. cbn [is_scoped] in X. inversion X; subst c' m'.
+        assert (Sh : scoped_shape sc t c m w w2).
+        { destruct (run_acct nopw t _ _ _ _ R1) as [evA [TA [FA HA]]].
+          destruct (run_nomark nopw t _ _ _ _ (alg_nomark _ (raw_try_ops m (alg_of (e_am e) s))) R1) as [evA' [TA' FA']].
+          assert (evA' = evA) by (rewrite TA in TA'; now apply app_inv_tail in TA'). subst evA'.
+          destruct (run_rel_res nopw t _ _ _ _ R1) as [evA'' [TA'' FA'']].
+          assert (evA'' = evA) by (rewrite TA in TA''; now apply app_inv_tail in TA''). subst evA''.
+          exists w1, wb, evA, evR. split; [exact TA|]. split; [exact FA'|]. split; [exact FA|]. split; [exact FA''|]. split; [exact HA|].
+          split; [intros x; rewrite (eff_raw _ _ _ E1); now rewrite (shape_of_coll _ _ _ Hc)|].
+          split; [exact Fb|]. split; [exact Tb|exact Ftl]. }
+        destruct (existsb is_cpanic body); exact Sh.
     - cbn [run] in R. inversion R; subst out w'. clear R.
       constructor; cbn [api_fin snd stop_code].
       + intros H; discriminate H.
@@ -477,6 +542,7 @@ Section CallAcq2.
       + intros _ x. rewrite (eff_raw _ _ _ E1). reflexivity.
       + intros c' m' f' _ H. discriminate H.
       + intros _. apply (eff_tr _ _ _ E1).
+      + intros c' m' _. apply (run_nomark nopw t _ _ _ _ (alg_nomark _ (raw_try_ops m (alg_of (e_am e) s))) R1).
   Qed.
 End CallAcq2.
 
@@ -486,14 +552,16 @@ Lemma call_out_same sc t lc o w out w' :
   (forall rc, raw_after sc t lc o rc (w_raw w) = w_raw w) ->
   (forall rc, got_guard o rc = false) ->
   (exists evs, w_trace w' = evs ++ w_trace w /\ Forall clean_ev evs) ->
+  is_scoped o = None ->
   call_out sc t lc o w out w'.
 Proof.
-  intros Hr Hq Hs Ha Hg Hc. constructor.
+  intros Hr Hq Hs Ha Hg Hc Hsc. constructor.
   - rewrite Hs. discriminate.
   - intros _. exact Hq.
   - intros _ x. rewrite Ha. apply Hr.
   - intros c m f _ H. rewrite Hg in H. discriminate H.
   - intros _. exact Hc.
+  - intros c m X. rewrite Hsc in X. discriminate X.
 Qed.
 
 Lemma call_Q sc t lc o p w out w' :
@@ -526,6 +594,7 @@ Proof.
     + intros _ x. cbn [set_keyf w_raw raw_after]. rewrite G. cbn [g_mode g_items]. apply (eff_raw _ _ _ E1).
     + intros c m f X. discriminate X.
     + intros _. apply (eff_tr _ _ _ E1).
+    + intros c m X. discriminate X.
   - (* AGuardUnlock *)
     destruct (guard lc) as [[gm items]|] eqn:G; [|discriminate]. injection Hp as Hp; subst p. cbn [g_mode g_items] in R.
     destruct (Hg gm items G) as [ND H].
@@ -536,6 +605,7 @@ Proof.
     + intros _ x. cbn [raw_after]. rewrite G. cbn [g_mode g_items]. apply (eff_raw _ _ _ E1).
     + intros c m f X. discriminate X.
     + intros _. apply (eff_tr _ _ _ E1).
+    + intros c m X. discriminate X.
   - (* AGuardForget *)
     destruct (guard lc); [|discriminate]. injection Hp as Hp; subst p. cbn in R. inversion R; subst out w'.
     apply call_out_same; auto; (exists []; split; [reflexivity|constructor]).
@@ -559,6 +629,7 @@ Proof.
       * intros _ x. cbn [set_keyf w_raw raw_after]. rewrite G. cbn [g_mode g_items]. apply (ep_raw _ _ _ _ E1).
       * intros c m f X. discriminate X.
       * intros _. apply (ep_tr _ _ _ _ E1).
+      * intros c m X. discriminate X.
     + injection Hp as Hp; subst p.
       assert (Rr : run nopw t (Bind (with_key false (haskey lc) skip) (fun _ => Throw)) w =
                    (OPanic, if haskey lc then set_keyf w t false else w)).
@@ -569,6 +640,7 @@ Proof.
       * intros _ x. cbn [raw_after]. rewrite G. destruct (haskey lc); reflexivity.
       * intros c m f X. discriminate X.
       * intros _. destruct (haskey lc); (exists []; split; [reflexivity|constructor]).
+      * intros c m X. discriminate X.
   - (* AIsPoisoned *)
     destruct (coll (sc_env sc) c) as [[| | | | | |q s']|]; try discriminate. injection Hp as Hp; subst p.
     cbn in R. inversion R; subst out w'. apply call_out_same; auto; (exists []; split; [reflexivity|constructor]).
